@@ -134,9 +134,9 @@ def formulas(ctx):
 
 
 @rule('C15.a', min_instances=54)
-def closure_family(ctx):
+def closure_family(ctx, types=None):
     """error/iter/iteration/store/stored/clear agree with the family reference (|f| vs max(0,f); store records only in the Lagrange types; all forward to nested penalties); eight attributes attached; ptype names the factory"""
-    for typ in TYPES:
+    for typ in (types or TYPES):
         kind = 'equality' if typ.endswith('_equality') else 'inequality'
         _cmp(ctx, _closure(ctx, typ, 'error'), REF_ERROR[kind], typ + '.error', 'error = |violation| in quadrature with nested errors')
         for name in ('iter', 'iteration', 'stored', 'clear'):
